@@ -151,6 +151,10 @@ def main(tier, replay=None):
         return c.finish(TRUSTED, no_input_break="extraction/OCaml build of the Import/Remove model failed: " + err[-1500:])
 
     n = 120 if tier == "quick" else 1200
+
+    if c.escalated:   # a modelled Go function changed since the pin (c.drift): look harder, no verdict from drift alone
+
+        n *= 3
     impl = os.path.join(c.workdir, "impl.txt")
     stats = ""
     if replay:
